@@ -20,7 +20,7 @@ ASSUMPTIONS = ["system compilers emit correct DWARF", "tools rebuilt from /repo'
 @st.composite
 def strategy_(draw, tier):
     big = tier == "thorough"
-    m = draw(S.library(lang="any", max_types=12 if big else 8, max_funcs=8 if big else 6, symfeatures=True, tu_private=30))
+    m = draw(S.library(lang="any", max_types=12 if big else 8, max_funcs=8 if big else 6, symfeatures=True, tu_private=30, tdanon=20))
     cfg = draw(S.build_config(kinds=("shared", "shared", "rel", "pie")))
     k = draw(st.integers(0, 3))
     idx = sorted(set(draw(st.integers(0, len(WOPTS) - 1)) for _ in range(k)))
